@@ -196,6 +196,24 @@ func (d *drv) realNames(n int, rnd *rand.Rand) {
 
 func (d *drv) random(t int, rnd *rand.Rand) {
 	m := smallPrimes[rnd.Intn(len(smallPrimes))]
+	if rnd.Intn(6) == 0 {
+		// more backends than table entries (a service that outgrew BPFMaglevMaxEndpointsPerService): some
+		// backends get no entry, but which ones must still not depend on the order they were learned in
+		m = []int{5, 7, 11}[rnd.Intn(3)]
+		n := m + 1 + rnd.Intn(m)
+		if rnd.Intn(2) == 0 {
+			var raw [][]int
+			for i := 0; i < n; i++ {
+				raw = append(raw, []int{rnd.Intn(1 << 30), rnd.Intn(1 << 30)})
+			}
+			d.tableDriven(t, m, raw, rnd)
+			return
+		}
+		d.realNames(n, rnd)
+		d.log.Reset(t, jc{"exact": false, "os": [][]int{{0, 0}}})
+		d.orders(m, n, rnd)
+		return
+	}
 	if rnd.Intn(2) == 0 {
 		n := 1 + rnd.Intn(min(m, 8))
 		var raw [][]int
@@ -253,6 +271,30 @@ func (d *drv) sizes(t int, sample int, rnd *rand.Rand) int {
 		d.guard(func() {
 			d.gen(m, asc)
 			d.gen(m, append(sh, sh[0]))
+		})
+	}
+	// Input selection only (nothing here is a verdict): a configured size with a divisor p gives a backend
+	// whose skip is a multiple of p a preference list that visits only m/p entries, so such sizes are always
+	// exercised, with many single-backend tables (one of ~p names has such a skip).
+	for _, m := range distinct {
+		p := 0
+		for q := 2; q*q <= m; q++ {
+			if m%q == 0 {
+				p = q
+				break
+			}
+		}
+		if p == 0 {
+			continue
+		}
+		t++
+		n := min(8*p, 400)
+		d.realNames(n, rnd)
+		d.log.Reset(t, jc{"exact": false, "os": [][]int{{0, 0}}})
+		d.guard(func() {
+			for id := 1; id <= n; id++ {
+				d.gen(m, []int{id})
+			}
 		})
 	}
 	return t
